@@ -29,6 +29,8 @@ PROPS = {
         ],
     },
     "C01": {
+        "gen": True,
+        "technique": "Lean 4 theorems over a hand-written model + Go-to-Lean translation of getPayload's zero-run encoder loops (collector_better.go) regenerated on every run and proved equal to the model's encoder + differential correspondence check against the Go implementation",
         "streams": ["core"],
         "rule": "core: fixed regression corpus; every delta matrix with entries in {0,+1,-1} and m*n <= 6 (thorough: 8) over rotating "
                 "constructors; random schema trees (depth <= 4, fan-out <= 4, all 20 BSON element types, arrays in documents in arrays) with "
@@ -75,6 +77,8 @@ PROPS = {
         "assumptions": ["keys without '.'"],
     },
     "C03": {
+        "gen": True,
+        "technique": "Lean 4 theorems over a hand-written model + Go-to-Lean translation of getPayload's zero-run encoder loops (collector_better.go) regenerated on every run and proved equal to the model's encoder + differential correspondence check against the Go implementation",
         "streams": ["core", "wire-dec"],
         "rule": "core (encode direction): the library's bytes are parsed with an independent strict BSON walker and compress/zlib; header fields, field order, "
                 "length prefix, no trailing bytes are checked and the inflated payload is compared byte for byte with the payload the Lean model emits; intermediate Resolve calls (token R) and "
